@@ -259,6 +259,19 @@ func (a *AttributeExpr) Validate(ctx string, parent eval.Expression) *eval.Valid
 		}
 	}
 
+	// Validate the types that are extended or referenced by the user type:
+	// they may not be used anywhere else.
+	if ut, ok := a.Type.(UserType); ok {
+		uatt := ut.Attribute()
+		for _, dts := range [][]DataType{uatt.Bases, uatt.References} {
+			for _, dt := range dts {
+				if but, ok := dt.(UserType); ok {
+					verr.Merge(but.Attribute().Validate("type "+but.Name(), parent))
+				}
+			}
+		}
+	}
+
 	if rt, ok := a.Type.(*ResultTypeExpr); ok {
 		verr.Merge(rt.validateNestedViews(parent))
 	}
